@@ -266,6 +266,74 @@ pub fn run_profile_cfgs(
         });
         all.extend(tallies);
     }
+    // Composition pass ("start from non-initial states"): every K-th case A that the reference
+    // completes without error, followed in the same program by each of a fixed probe set of
+    // cases B — alternately at top level and inside one function body. What A leaves behind
+    // (registers, catch points, captured values, iterators) must not change what B does.
+    let first_pass_cases: u64 = all.iter().map(|t| t.cases).sum::<u64>() / cfgs.len() as u64;
+    let composed_budget: u64 = tier.pick(40_000, 2_500_000);
+    let mut composed_rule = String::new();
+    if std::env::var("KV_NO_COMPOSE").is_err() {
+        let n_probes = tier.pick(24usize, 64usize);
+        let a_stride = ((first_pass_cases * n_probes as u64) / composed_budget).max(1) as usize;
+        composed_rule = format!(
+            "; composition pass: every {a_stride}-th case whose reference run ends without error, followed by each of {n_probes} probe cases (first case of every family + evenly spaced cases), at top level (even index) or inside one function body (odd index)"
+        );
+        for cfg in &cfgs {
+            let tallies = par_shards_big_stack(nshards, 64 << 20, |shard| {
+                // probes: deterministic, identical in every shard
+                let mut probes: Vec<Vec<X>> = vec![];
+                let mut seen_family: HashSet<&'static str> = HashSet::new();
+                let spacing = (first_pass_cases as usize / n_probes.max(1)).max(1);
+                let mut i = 0usize;
+                generate(tier, &mut |c: Case| {
+                    let pick = c.shape.is_empty() && (seen_family.insert(c.family) || i % spacing == spacing / 2);
+                    if pick && probes.len() < n_probes {
+                        probes.push(c.prog.clone());
+                    }
+                    i += 1;
+                });
+                let mut r = Runner {
+                    shard,
+                    nshards,
+                    idx: 0,
+                    cfg: cfg.clone(),
+                    tally: Tally::default(),
+                    classify,
+                    extra_check: extra_check.map(|f| f as &dyn Fn(&Case, &str, &Obs) -> Option<(String, String)>),
+                };
+                let mut ai = 0usize;
+                generate(tier, &mut |a: Case| {
+                    let this = ai;
+                    ai += 1;
+                    if this % a_stride != 0 || !a.shape.is_empty() {
+                        return;
+                    }
+                    // only shards that will run at least one composition of A evaluate A's reference
+                    let base = r.idx;
+                    let mine = (0..probes.len()).any(|k| (base + k) % nshards == shard);
+                    if !mine {
+                        r.idx += probes.len();
+                        return;
+                    }
+                    let ra = run_reference(&a.prog, cfg.type_checks, 200_000);
+                    if !matches!(ra.outcome, RefOutcome::Ok(_)) {
+                        r.idx += probes.len();
+                        return;
+                    }
+                    for (k, b) in probes.iter().enumerate() {
+                        let mut prog = a.prog.clone();
+                        prog.push(print(s("-- then --")));
+                        prog.extend(b.iter().cloned());
+                        let prog = if (this + k) % 2 == 1 { wrap_in_function(prog) } else { prog };
+                        r.take(Case { family: "composed", prog, shape: vec![] });
+                    }
+                });
+                r.tally
+            });
+            all.extend(tallies);
+        }
+    }
     let t = merge_tallies(all);
     if std::env::var("KV_TRIAGE").is_ok() {
         let mut groups: std::collections::BTreeMap<String, Vec<&String>> = Default::default();
@@ -297,7 +365,7 @@ pub fn run_profile_cfgs(
     report.cov("unmodelled_reasons", json!(t.unmodelled_reasons));
     report.cov("shape_predicate_counts", json!(t.masked));
     report.cov("exhaustive", true);
-    report.cov("rule", format!("{rule}; every generated program is rendered to source, compiled and run on the real koto (fresh runtime) and evaluated by the reference interpreter kref; distinct_nontrivial = distinct (stdout, outcome) observations among compared programs"));
+    report.cov("rule", format!("{rule}{composed_rule}; every generated program is rendered to source, compiled and run on the real koto (fresh runtime) and evaluated by the reference interpreter kref; distinct_nontrivial = distinct (stdout, outcome) observations among compared programs"));
     report.cov("samples", json!(t.samples));
     for a in assumptions {
         report.assume(a);
